@@ -6,6 +6,7 @@ import (
 	"fmt"
 	"go/constant"
 	"go/token"
+	"go/types"
 	"regexp"
 	"strings"
 
@@ -49,6 +50,63 @@ var flipOp = map[string]string{"==": "==", "!=": "!=", "<": ">", "<=": ">=", ">"
 var negOp = map[string]string{"==": "!=", "!=": "==", "<": ">=", "<=": ">", ">": "<=", ">=": "<"}
 
 // matchCond decides whether cond (an If condition) tests c, and on which edge c holds.
+// equivCmps lists comparisons equivalent to b as (left, op, right) path triples.
+func equivCmps(b *ssa.BinOp) [][3]string {
+	var out [][3]string
+	nonneg := func(v ssa.Value) bool {
+		if c, ok := v.(*ssa.Call); ok {
+			if bi, ok := c.Call.Value.(*ssa.Builtin); ok && (bi.Name() == "len" || bi.Name() == "cap") {
+				return true
+			}
+		}
+		if bt, ok := v.Type().Underlying().(*types.Basic); ok && bt.Info()&types.IsUnsigned != 0 {
+			return true
+		}
+		return false
+	}
+	constInt := func(v ssa.Value) (int64, bool) {
+		k, ok := v.(*ssa.Const)
+		if !ok || k.Value == nil || k.Value.Kind() != constant.Int {
+			return 0, false
+		}
+		return k.Int64(), true
+	}
+	// normalise to "X op K" with the constant on the right
+	X, Y, op := b.X, b.Y, b.Op.String()
+	if _, ok := constInt(X); ok {
+		X, Y, op = Y, X, flipOp[op]
+	}
+	if k, ok := constInt(Y); ok && nonneg(X) {
+		x := pathOf(X)
+		if k == 1 {
+			switch op {
+			case ">=":
+				op, k = ">", 0
+			case "<":
+				op, k = "==", 0
+			}
+		}
+		if k == 0 {
+			switch op {
+			case ">", "!=":
+				out = append(out, [3]string{x, ">", "const:0"}, [3]string{x, "!=", "const:0"}, [3]string{x, ">=", "const:1"})
+			case "<=", "==":
+				out = append(out, [3]string{x, "==", "const:0"}, [3]string{x, "<=", "const:0"}, [3]string{x, "<", "const:1"})
+			}
+		}
+	}
+	if k, ok := constInt(Y); ok && k == 0 {
+		if c, ok := X.(*ssa.Call); ok && c.Call.StaticCallee() != nil {
+			name := c.Call.StaticCallee().Name()
+			if (name == "Cmp" || name == "Compare") && len(c.Call.Args) == 2 {
+				sw := "call:" + calleeName(&c.Call) + "(" + pathOf(c.Call.Args[1]) + ", " + pathOf(c.Call.Args[0]) + ")"
+				out = append(out, [3]string{sw, flipOp[op], "const:0"})
+			}
+		}
+	}
+	return out
+}
+
 func matchCond(c Cond, cond ssa.Value) (matched, passOnTrue bool) {
 	// short-circuit lowering: cond = phi(X | false...) means cond ⇒ X; cond = phi(X | true...) means !cond ⇒ !X
 	if phi, ok := cond.(*ssa.Phi); ok && !((c.Op == "T" || c.Op == "F") && re(c.L).MatchString(pathOf(cond))) {
@@ -124,6 +182,16 @@ func matchCond(c Cond, cond ssa.Value) (matched, passOnTrue bool) {
 	if m, p := try(y, x, flipOp[op]); m {
 		return m, p
 	}
+	// equivalent comparisons: a count or unsigned value against 0 or 1 (`len(s) > 0`, `!= 0`, `>= 1`), and a three-way
+	// comparison with its operands exchanged (`a.Cmp(b) < 0`, `b.Cmp(a) > 0`)
+	for _, alt := range equivCmps(b) {
+		if m, p := try(alt[0], alt[2], alt[1]); m {
+			return m, p
+		}
+		if m, p := try(alt[2], alt[0], flipOp[alt[1]]); m {
+			return m, p
+		}
+	}
 	// second spelling: fields read through trivial accessors
 	if x2, y2 := pathOfX(b.X), pathOfX(b.Y); x2 != x || y2 != y {
 		if m, p := try(x2, y2, op); m {
@@ -159,6 +227,7 @@ func (p *Program) guardEdges(fn *ssa.Function, g Guard) []guardSite {
 		if !ok {
 			continue
 		}
+		found := false
 		for _, c := range g.Alts {
 			if m, pt := matchCond(c, iff.Cond); m {
 				e := edge{b, b.Succs[1]}
@@ -166,11 +235,86 @@ func (p *Program) guardEdges(fn *ssa.Function, g Guard) []guardSite {
 					e = edge{b, b.Succs[0]}
 				}
 				out = append(out, guardSite{iff, e, fmt.Sprintf("%s if %s [pass on %v]", p.Pos(instrPos(iff)), clip(pathOf(iff.Cond), 160), pt)})
+				found = true
 				break
+			}
+		}
+		if found {
+			continue
+		}
+		// The value of `a1 && … && ak` (a switch case, an assigned condition) being false means one operand is false; that
+		// establishes the guard when the negation of every operand is one of its alternatives. Dually for || being true.
+		if ops, isAnd, ok := chainOperands(iff.Cond); ok {
+			all := true
+			for _, op := range ops {
+				one := false
+				for _, c := range g.Alts {
+					if m, pt := matchCond(c, op); m && pt == !isAnd {
+						one = true
+						break
+					}
+				}
+				all = all && one
+			}
+			if all && len(ops) > 1 {
+				e := edge{b, b.Succs[1]}
+				if !isAnd {
+					e = edge{b, b.Succs[0]}
+				}
+				out = append(out, guardSite{iff, e, fmt.Sprintf("%s if %s [every operand's %v outcome is an alternative]", p.Pos(instrPos(iff)), clip(pathOf(iff.Cond), 160), !isAnd)})
 			}
 		}
 	}
 	return out
+}
+
+// chainOperands: cond is the value of a1 && … && ak (a phi of the constant false and the last operand) or of an ||
+// chain (constant true); returns the operands.
+func chainOperands(cond ssa.Value) (ops []ssa.Value, isAnd, ok bool) {
+	phi, isPhi := cond.(*ssa.Phi)
+	if !isPhi {
+		return nil, false, false
+	}
+	nT, nF := 0, 0
+	var last ssa.Value
+	for i, e := range phi.Edges {
+		if k, isK := e.(*ssa.Const); isK && k.Value != nil && k.Value.Kind() == constant.Bool {
+			if i >= len(phi.Block().Preds) {
+				return nil, false, false
+			}
+			pred := phi.Block().Preds[i]
+			pif, isIf := pred.Instrs[len(pred.Instrs)-1].(*ssa.If)
+			if !isIf || len(pred.Succs) != 2 {
+				return nil, false, false
+			}
+			// the constant is the outcome of the operand tested in pred: false from its false edge (&&), true from its true edge (||)
+			if constant.BoolVal(k.Value) {
+				nT++
+				if pred.Succs[0] != phi.Block() {
+					return nil, false, false
+				}
+			} else {
+				nF++
+				if pred.Succs[1] != phi.Block() {
+					return nil, false, false
+				}
+			}
+			if sub, subAnd, isChain := chainOperands(pif.Cond); isChain && subAnd == !constant.BoolVal(k.Value) {
+				ops = append(ops, sub...)
+			} else {
+				ops = append(ops, pif.Cond)
+			}
+			continue
+		}
+		if last != nil {
+			return nil, false, false
+		}
+		last = e
+	}
+	if last == nil || (nT == 0) == (nF == 0) {
+		return nil, false, false
+	}
+	return append(ops, last), nF > 0, true
 }
 
 func clip(s string, n int) string {
